@@ -24,8 +24,12 @@ OPPOSITE = "ampform.helicity.decay::is_opposite_helicity_state"
 
 
 def prov_key(store) -> str:
-    missing = sorted(describe(d) for d in store.missing)
-    return f"{store.fn.qual}::{unparse(store.stmt)}::missing[{'; '.join(missing)}]"
+    """Key of an R-PROV violation: function + store statement + missing definitions, with
+    the names of local variables canonicalised (alpha-renaming does not change the key)."""
+    from ..canon import canon
+
+    missing = sorted(describe(d, canonical=True) for d in store.missing)
+    return f"{store.fn.qual}::{canon(store.stmt)}::missing[{'; '.join(missing)}]"
 
 
 def check_prov(ctx: Check, tree: Tree, producers: list[str], min_stores: int) -> int:
@@ -112,8 +116,13 @@ def check_frame(ctx: Check, tree: Tree) -> None:
             br = unparse(b.right.args[0]) if isinstance(b.right, ast.Call) and b.right.args else None
             if bl != P or br != P:
                 problems.append("beta is not computed from the same summed momentum as the angles")
-        if P is not None and "determine_attached_final_state(topology, state_id)" not in P and "sub_momenta_ids" not in P:
-            problems.append(f"the frame momentum `{P[:60]}` is not the sum over the final states attached to the decaying child")
+        if P is not None:
+            import re as _re
+
+            loop_vars = {unparse(a.target) for a in ancestors(comp) if isinstance(a, ast.For)}
+            mm = _re.search(r"determine_attached_final_state\(topology, (\w+)\)", P)
+            if not (P.startswith("ArraySum(") and mm and mm.group(1) in loop_vars):
+                problems.append(f"the frame momentum `{P[:60]}` is not the sum over the final states attached to the decaying child")
         # filter: only the momenta of this subsystem are boosted
         ifs = comp.generators[0].ifs
         if len(ifs) != 1 or not (isinstance(ifs[0], ast.Compare) and isinstance(ifs[0].ops[0], ast.In)):
